@@ -422,6 +422,46 @@ def pipeline(seed, tier):
     return r
 
 
+def impl_coverage(run):
+    """Thorough tier: line/region coverage of /repo/src reached by this batch, measured with an
+    instrumented build of the harness (nightly llvm-tools). Reported as evidence of generator reach;
+    None when the tooling is unavailable."""
+    tools = os.path.expanduser("~/.rustup/toolchains/nightly-x86_64-unknown-linux-gnu/lib/rustlib/x86_64-unknown-linux-gnu/bin")
+    if not os.path.exists(os.path.join(tools, "llvm-cov")):
+        return None
+    out_json = os.path.join(run.dir, "coverage.json")
+    if os.path.exists(out_json):
+        return json.load(open(out_json))
+    tgt = os.path.join(CACHE, "cov-target")
+    rc, out = sh("cd %s/harness && RUSTFLAGS='-C instrument-coverage' CARGO_TARGET_DIR=%s cargo +nightly build --offline 2>&1 | tail -3"
+                 % (ROOT, tgt), 1800)
+    binp = os.path.join(tgt, "debug", "verif-harness")
+    if not os.path.exists(binp):
+        return None
+    inp = os.path.join(run.dir, "cov.sexp")
+    with open(inp, "w") as f:
+        f.write("\n".join(run.programs) + "\n")
+    raw, prof = os.path.join(run.dir, "cov.profraw"), os.path.join(run.dir, "cov.profdata")
+    sh("LLVM_PROFILE_FILE=%s %s run %s %s/cov.out" % (raw, binp, inp, run.dir), 3000)
+    sh("%s/llvm-profdata merge -sparse %s -o %s" % (tools, raw, prof), 600)
+    rc, rep = sh("%s/llvm-cov report %s -instr-profile=%s %s/src/semantic.rs %s/src/types/block_state.rs"
+                 % (tools, binp, prof, REPO, REPO), 600)
+    res = {}
+    for line in rep.splitlines():
+        parts = line.split()
+        if len(parts) >= 10 and parts[0].endswith(".rs"):
+            res[parts[0]] = {"regions": int(parts[1]), "missed_regions": int(parts[2]),
+                             "lines": int(parts[7]), "missed_lines": int(parts[8]), "line_cover": parts[9]}
+    for fn in ("cov.sexp", "cov.profraw", "cov.out"):
+        try:
+            os.remove(os.path.join(run.dir, fn))
+        except OSError:
+            pass
+    with open(out_json, "w") as f:
+        json.dump(res, f)
+    return res
+
+
 def mon_get(line, prop):
     """Monitor verdict for `prop` on one line: True / False / None (not applicable or unreadable)."""
     for tok in line.split():
@@ -546,8 +586,35 @@ def replay(prop, path):
         return 1 if rec.get("what") else 0
     b = build()
     d = os.path.join(CACHE, "replay")
-    impl, model, mon, problems = run_programs([rec["program"]], d, shards=1)
     spec = props.PROPS[prop]
+    if rec.get("group") and spec.get("cross"):
+        r = Run()
+        r.programs = [g["program"] for g in rec["group"]]
+        r.metas = [g["meta"] for g in rec["group"]]
+        r.impl, r.model, r.mon, r.problems = run_programs(r.programs, d, shards=1)
+        r.dir = d
+        alarms, st = spec["cross"](r)
+        print("replay %s: cross check on %d programs: %s" % (prop, len(r.programs), alarms[0][1] if alarms else "holds"))
+        if alarms:
+            print("VIOLATION property=%s replay=%s" % (prop, path))
+            return 1
+        return 0
+    if spec.get("stage"):
+        r = Run()
+        r.programs, r.metas = [rec["program"]], [{"stream": "replay"}]
+        r.impl, r.model, r.mon, r.problems = run_programs(r.programs, d, shards=1)
+        r.dir = d
+        try:
+            os.remove(os.path.join(d, "DONE-codec.json"))
+        except OSError:
+            pass
+        alarms, dis, where, st = spec["stage"](r)
+        print("replay %s: stage: %s %s" % (prop, alarms[0][1] if alarms else "round trips hold", where))
+        if alarms or dis:
+            print("VIOLATION property=%s replay=%s" % (prop, path))
+            return 1
+        return 0
+    impl, model, mon, problems = run_programs([rec["program"]], d, shards=1)
     verdicts = props.judge(prop, rec["program"], impl[0], model[0], mon[0])
     print("replay %s: impl-vs-model(%s)=%s monitor=%s" % (
         prop, spec["projection"], verdicts["agree"], verdicts["monitor"]))
@@ -612,8 +679,16 @@ def check(prop, tier, seed):
             small = shrink(prog, lambda t: props.alarm_on(prop, t))
         except Exception:
             small = prog
+        group = None
+        if spec.get("cross"):
+            # relational property: the replay needs the whole group (base program and its derived ones)
+            b = run.metas[i].get("base", i)
+            idx = [b] + [j for j, m in enumerate(run.metas) if m.get("base") == b and m.get("stream") in ("perm", "stub")]
+            group = [{"program": run.programs[j], "meta": dict(run.metas[j], base=0) if j != b else run.metas[j]} for j in idx]
+            small = prog
         path = write_replay(prop, "monitor alarm: " + clause, small, None, None,
-                            {"original_program": prog, "meta": run.metas[i], "seed": seed, "tier": tier})
+                            {"original_program": prog, "meta": run.metas[i], "seed": seed, "tier": tier,
+                             "group": group})
         violation_line = "VIOLATION property=%s replay=%s" % (prop, path)
     elif broken:
         # the property is no longer shown to hold: look for a concrete failing input
@@ -666,6 +741,10 @@ def check(prop, tier, seed):
         cov["cross"] = stats.get("cross", {})
         cov["stage"] = stats.get("stage", {})
         cov["exhaustive"] = False
+        if tier == "thorough":
+            ic = impl_coverage(run)
+            if ic:
+                cov["implementation_coverage_of_this_batch"] = ic
     else:
         cov["evaluations"] = 0
         cov["distinct_nontrivial"] = 0
